@@ -37,7 +37,8 @@ func CheckRecursion(rootTypeName string, rootSchema *ischema.ISchema) error {
 			// Obviously, root type was visited.
 			rootTypeName: {},
 		},
-		path: []string{rootTypeName},
+		path:         []string{rootTypeName},
+		rootTypeName: rootTypeName,
 	}
 
 	return rc.check(rootSchema.RootNode(), rootSchema.TypesList())
@@ -51,6 +52,10 @@ type recursionChecker struct {
 	// Necessary for building an error message 'cause user should understand where
 	// recursion was found.
 	path []string
+
+	// rootTypeName a name of the checked type. Only recursions which lead back
+	// to this type are reported.
+	rootTypeName string
 }
 
 func (c *recursionChecker) check(node ischema.Node, types map[string]ischema.Type) error {
@@ -159,7 +164,13 @@ func (c *recursionChecker) checkMixedValueNode(
 
 func (c *recursionChecker) checkType(typeName string, types map[string]ischema.Type) error {
 	if !c.visit(typeName) {
-		return c.createError()
+		if typeName == c.rootTypeName {
+			return c.createError()
+		}
+		// The recursion doesn't pass through the checked type. It will be
+		// reported when that type is checked by itself.
+		c.path = c.path[:len(c.path)-1]
+		return nil
 	}
 	defer c.leave(typeName)
 
@@ -170,7 +181,9 @@ func (c *recursionChecker) checkType(typeName string, types map[string]ischema.T
 		return nil
 	}
 
-	return c.check(t.Schema.RootNode(), t.Schema.TypesList())
+	// All types are registered in the root schema, so we should keep using
+	// its list of types on every level.
+	return c.check(t.Schema.RootNode(), types)
 }
 
 func (c *recursionChecker) visit(typeName string) bool {
